@@ -13,9 +13,10 @@ planner's table with the solutions for every pattern) is tied by the three-way `
 only: implementation / planner model / reference semantics on generated stores and queries — partial.
 -/
 import BW.Proofs.Query
+import BW.Proofs.PlannerFetch3
 
 namespace BW.Props.C03
-open BW.Model BW.Spec BW.Proofs.Query
+open BW.Model BW.Spec BW.Proofs.Query BW.Proofs.Planner BW.Proofs.Store
 
 /-- A clause matches a triple only if its constants equal the triple's parts (predicates: identifier,
     kind, instant) and the predicate lies inside the clause-level and global time bounds. -/
@@ -78,6 +79,54 @@ def exT : Triple := ⟨⟨[47, 117], [97]⟩, .imm [112], .node ⟨[47, 117], [9
 def exC : Clause := { sBinding := [63, 115], p := some (.imm [112]), oBinding := [63, 111] }
 example : (matchClause exC {} exT).isSome = true := by decide
 
+/-! ### The planner's fetch is the reference's match -/
+
+/-- For every clause — any of subject, predicate, object fixed or open; bindings, aliases, TYPE / ID / AT
+    extractions, `"id"@[?t]` and `"id"@[lo,hi]` — and every global window, the planner's data access
+    (`simpleFetch`: the driver look-up chosen by the fixed positions, over every FROM graph, then
+    `tripleToRow` under `shouldIgnoreTriple`) succeeds and returns, as a set and up to the zone in which
+    an anchor is written, exactly the rows the reference semantics binds on a scan of those graphs.
+    Hypotheses: the graphs satisfy the store's index invariant (every reachable graph, C01) and their
+    views are those of their triples; no FILTER option; the clause's constants and the stored values are
+    told apart by their UUID pre-images (they are not for the known findings D02/D04); the ID alias of
+    the object is not named after the object itself (an idiom the suite pins). -/
+theorem fetch_is_reference_match {F : Facts} (hF : Facts.WF F = true) (gs : List QGraph) (hg : GraphsOK F gs)
+    (c : Clause) (hid : IdAliasPlain c) (lo : QOpts) (hfil : lo.filter = none)
+    (hap : Apart gs c) (hapA : AnchorsApart gs c) :
+    ∃ rows, simpleFetch F gs c lo 0 = .ok rows ∧
+      SetEq rows (specRows c (fetchWindow lo c) (gs.flatMap scanOf)) :=
+  simpleFetch_spec hF gs hg c hid lo hfil hap hapA
+
+/-- One triple, one clause: the Go function `tripleToRow` is the left fold of the reference's binding
+    steps (same success, same row). -/
+theorem triple_to_row_is_reference (t : Triple) (c : Clause) (hid : IdAliasPlain c) :
+    tripleToRow t c = (match specBind c t with | some r => T2R.row r | none => T2R.skip) :=
+  tripleToRow_eq t c hid
+
+/-- Non-vacuity: the hypotheses hold for a one-triple graph and a clause with a constant predicate. -/
+def exV : TView := { id := 0, ks := preNode exT.s, pid := exT.p.id, pnano := none, ko := preNode ⟨[47, 117], [98]⟩ }
+def exQ : QGraph := { g := Graph.empty.add1 Facts.reference exV, uni := fun _ => some exT }
+example : IdAliasPlain exC := Or.inl rfl
+example : GraphsOK Facts.reference [exQ] := by
+  intro q hq
+  simp only [List.mem_singleton] at hq
+  subst hq
+  refine ⟨inv_add1 reference_wf (inv_empty _) exV, ?_⟩
+  intro v hv
+  simp [exQ, Graph.add1, Graph.empty, Facts.reference] at hv
+  subst hv
+  exact ⟨exT, rfl, rfl, rfl, rfl, rfl⟩
+example : Apart [exQ] exC := ⟨fun s hs => by simp [exC] at hs, fun o ho => by simp [exC] at ho⟩
+example : AnchorsApart [exQ] exC := by
+  intro p hp q hq t ht _
+  simp only [List.mem_singleton] at hq
+  subst hq
+  simp [exC] at hp
+  subst hp
+  simp [scanOf, QGraph.triples, exQ, Graph.add1, Graph.empty, Facts.reference] at ht
+  subst ht
+  rfl
+
 end BW.Props.C03
 
 #print axioms BW.Props.C03.match_respects_constants_and_bounds
@@ -89,3 +138,5 @@ end BW.Props.C03
 #print axioms BW.Props.C03.planner_joins_only_compatible
 #print axioms BW.Props.C03.planner_join_extends
 #print axioms BW.Props.C03.monotone
+#print axioms BW.Props.C03.fetch_is_reference_match
+#print axioms BW.Props.C03.triple_to_row_is_reference
